@@ -7,15 +7,17 @@ from . import families as fam
 from . import life
 
 EXPLANATION = (
-    "Decides on every CFG path of poll_inner: (R1) the restart arm is selected by exactly the errno set "
-    "{EINTR, ECANCELED} (numbers from the system errno headers) of raw_os_error() on the Err edge of "
-    "check_result, inside the Done arm; (R2) from the restart edge to the loop header there is no return, no call "
-    "of get_resources/map_ok/fallback/drop_in_place, no write to tail.args/tail.resources, status = NotStarted is "
-    "stored and the state lock stays held; (R3) the only submit site is the NotStarted arm, which fills from the "
-    "same data.tail places and stores a fresh O::empty() container (LIFE-6), so nothing of the earlier attempt is "
-    "mixed in; (R4) a multishot stream restarts only behind the `!has_next()` assertion. Idempotence of each "
-    "fill_submission on re-run and kernel behaviour are not decided. (R5) LIFE-4: the status only becomes Done on a "
-    "completion without F_MORE, so a restart never overlaps a still-pending completion of the earlier attempt."
+    'Decides on every CFG path of poll_inner: (R1) the restart arm is selected by exactly the errno set '
+    '{EINTR, ECANCELED} (numbers from the system errno headers) of raw_os_error() on the Err edge of '
+    'check_result, inside the Done arm; (R2) from the restart edge to the loop header there is no return, no '
+    'call of get_resources/map_ok/fallback/drop_in_place, no write to tail.args/tail.resources, status = '
+    'NotStarted is stored and the state lock stays held, and for single-shot operations no path from a '
+    'get_resources call (which moves the resources out) reaches the restart; (R3) the only submit site is the '
+    'NotStarted arm, which fills from the same data.tail places and stores a fresh O::empty() container '
+    '(LIFE-6), so nothing of the earlier attempt is mixed in; (R4) a multishot stream restarts only behind the '
+    '`!has_next()` assertion. Idempotence of each fill_submission on re-run and kernel behaviour are not '
+    'decided. (R5) LIFE-4: the status only becomes Done on a completion without F_MORE, so a restart never '
+    'overlaps a still-pending completion of the earlier attempt.'
 )
 NOT_DECIDED = "value-level idempotence of each fill_submission when run twice on the same resources; kernel behaviour"
 ASSUMPTIONS = ["errno numbers from /usr/include/asm-generic/errno*.h match the target"]
